@@ -43,7 +43,7 @@ func kindOf(name string) string {
 }
 
 // deliver runs validate-then-track exactly as the call site of `kind` does and classifies the result.
-func deliver(kind string, nc *security.NonceCache, tol time.Duration, sender, nonce string, ts int64, macOK bool) string {
+func deliver(kind string, nc *security.NonceCache, tol time.Duration, sender, nonce string, ts int64, macOK bool, respell bool) string {
 	payload := []byte(`{"cmd":1}`)
 	var mac string
 	var err error
@@ -61,6 +61,10 @@ func deliver(kind string, nc *security.NonceCache, tol time.Duration, sender, no
 	}
 	if err != nil {
 		return "error:" + err.Error()
+	}
+	if respell {
+		// same MAC bytes, different hex spelling: every validator hex-decodes before comparing
+		mac = strings.ToUpper(mac)
 	}
 	if !macOK {
 		if mac[0] == '0' {
@@ -150,6 +154,7 @@ func main() {
 		sender, nonce string
 		ts            int64
 		macOK         bool
+		respell       bool
 	}) {
 		verifclock.Set(base)
 		nc := security.NewNonceCache(time.Duration(st.ttlNs)) // lastEvict = virtual base
@@ -162,10 +167,13 @@ func main() {
 		nontriv := false
 		for _, e := range evs {
 			verifclock.Set(e.now)
-			v := deliver(st.kind, nc, time.Duration(st.tolNs), e.sender, e.nonce, e.ts, e.macOK)
+			v := deliver(st.kind, nc, time.Duration(st.tolNs), e.sender, e.nonce, e.ts, e.macOK, e.respell)
 			mo := 0
 			if e.macOK {
 				mo = 1
+				if e.respell {
+					mo = 2 // valid MAC, hex re-spelled in upper case
+				}
 			}
 			op := fmt.Sprintf("msg %s %d %s %s %d %d", st.kind, e.now, e.sender, e.nonce, e.ts, mo)
 			c.Op(op, fmt.Sprintf("%s len=%d", v, nc.Len()))
@@ -206,6 +214,7 @@ func main() {
 		sender, nonce string
 		ts            int64
 		macOK         bool
+		respell       bool
 	}
 	// (1) the edge grid of the property's quantifier: signed offset × first receipt × replay time.
 	for _, st := range sites {
@@ -224,12 +233,12 @@ func main() {
 					t1 := base + 1000*sec + sub
 					ts := t1/sec + off
 					nonce := fmt.Sprintf("g%d", i)
-					evs := []ev{{t1, "nodeA", nonce, ts, true}, {t1 + gap, "nodeA", nonce, ts, true}}
+					evs := []ev{{t1, "nodeA", nonce, ts, true, false}, {t1 + gap, "nodeA", nonce, ts, true, i%2 == 0}}
 					if gap > 61*sec { // interleave other traffic so the lazy sweep runs: mid-way, and late
 						// (shortly before the replay, in the last minute of the nonce's retention)
 						for _, back := range []int64{gap / 2, 30 * sec, 1} {
 							mid := t1 + gap - back
-							runCase(st, []ev{evs[0], {mid, "nodeB", "x" + nonce, mid / sec, true}, evs[1]})
+							runCase(st, []ev{evs[0], {mid, "nodeB", "x" + nonce, mid / sec, true, false}, evs[1]})
 						}
 						continue
 					}
@@ -263,9 +272,10 @@ func main() {
 				if r.Chance(10) {
 					e.macOK = false
 				}
+				e.respell = r.Chance(30)
 			} else {
 				off := vh.Pick(r, []int64{-tolSec - 1, -tolSec, -tolSec + 1, -2, 0, 3, tolSec - 1, tolSec, tolSec + 1, int64(r.Intn(int(2*tolSec+1))) - tolSec})
-				e = ev{now, vh.Pick(r, []string{"nodeA", "nodeB"}), fmt.Sprintf("n%d", r.Intn(4)), now/sec + off, !r.Chance(10)}
+				e = ev{now, vh.Pick(r, []string{"nodeA", "nodeB"}), fmt.Sprintf("n%d", r.Intn(4)), now/sec + off, !r.Chance(10), false}
 			}
 			evs = append(evs, e)
 			hist = append(hist, e)
